@@ -63,7 +63,7 @@ def _plan(draw, max_rows):
         if kind in ("s",) and n and draw(st.integers(0, 2)) == 0:
             vals[0] = ""                      # leading missing string
         cols.append({"name": nm[j], "kind": kind, "vals": vals})
-    return {"frame": {"n": n, "cols": cols}}
+    return {"frame": draw(gen.decorate({"n": n, "cols": cols}))}
 
 
 def strategy(tier):
